@@ -268,6 +268,19 @@ def check(run, model, tier):
                 if inst_steps:
                     cnt = queues.count(gg, node, start=inst_steps[0])
                     run.inst('SPY.accumulate', f, 'exactly one extend after the step', cnt == (1, 1), 'extends after the step: %s' % (cnt,), node=c, obligation=True)
+                # whenever the chart is instrumented, *every* normal path through this wrapper runs the step and then copies the step log: nothing but the
+                # instrumented flag may route a step around the accumulation (a stuck re-entrancy flag, a cached mode, ...)
+                from sa.boolflow import simulate
+                recv_ = f.params[0]
+                if node and steps:
+                    res_ = simulate(gg, gg.entry, {gg.exit}, {'=' + recv_ + '.instrumented': True}, track=set(node) | set(steps), watch={recv_ + '.instrumented'},
+                                    fnode=f.node, params=f.params)
+                    missing = [vis for stop, env_, vis in res_ if env_.get('=' + recv_ + '.instrumented') is True and not (node[0] in vis and any(s_ in vis for s_ in steps))]
+                    okp = bool(res_) and not missing
+                    run.inst('SPY.accumulate', f, 'instrumented: every path runs the step and then extends the full log', okp,
+                             '' if okp else ('with the chart instrumented there is a path through %s that returns without copying the step log into the full log (it is steered by '
+                                             'something other than the instrumented flag): the spy() output is then no longer the concatenation of the step logs - for example a '
+                                             'mode flag that stays set after a step ended with an exception' % f.qualname), node=c, obligation=True)
     run.floor('full.spy.extend sites', n_ext, 1)
     # ---- ring construction
     n_ring = 0
